@@ -98,8 +98,9 @@ Fixpoint idx_mism {A} (f : A -> N -> list (N * N * N)) (l : list A) (i : N) : li
   | x :: r => f x i ++ idx_mism f r (i + 1)%N
   end.
 
-Definition mismatches (R : list reqcase) (S : list stcase) (P : list respcase) (C : list cancase) : list (N * N * N) :=
-  idx_mism req_mism R 0%N ++ idx_mism st_mism S 0%N ++ idx_mism resp_mism P 0%N ++ idx_mism can_mism C 0%N.
+(* rbase = index of the first request case of this file *)
+Definition mismatches (rbase : N) (R : list reqcase) (S : list stcase) (P : list respcase) (C : list cancase) : list (N * N * N) :=
+  idx_mism req_mism R rbase ++ idx_mism st_mism S 0%N ++ idx_mism resp_mism P 0%N ++ idx_mism can_mism C 0%N.
 
 (* short constructors for the case files *)
 Fixpoint gp (s : string) : list gtok :=
